@@ -152,3 +152,36 @@ Print Assumptions C08_pass_equal_hash.
 
 (* NOT PROVED (and not provable): "no two of the millions of explored positions share a hash" is a statistical
    statement about a 64-bit mixer; the harness runs a census on the implementation (exploration, not proof). *)
+
+(* ================================================================================================================================
+   "However produced" under ANY configuration (wave 4, worker build4-symcfg; proofs ImportCfg1.v, ImportCfg6.v): Import6.produced
+   extended by FromSquares and the symmetry images under arbitrary piece counts and BlackWinsTies.
+   ================================================================================================================================ *)
+Require Import Rules Board Move GameOver Refine Preserve1 Canon8 Tps TpsCfg Symmetry SymmetryCfg Import1 Import6 ImportCfg1 ImportCfg6.
+Close Scope Z_scope. Close Scope N_scope.
+
+Theorem C08_produced_cfg_ok : forall p, produced_cfg p -> pos_ok p.
+Proof. exact produced_cfg_ok. Qed.
+Print Assumptions C08_produced_cfg_ok.
+
+(* Equal and Hash depend only on size, squares and side to move for positions produced by ANY mix of tak.New, FromSquares / the symmetry
+   images under ANY configuration (piece counts, BlackWinsTies), ParseTPS, moves and Pass: the configuration is not looked at *)
+Theorem C08_equal_hash_however_produced_cfg : forall p q, produced_cfg p -> produced_cfg q ->
+  size p = size q -> same_at p q -> same_side p q ->
+  equal p q = true /\ hash_of p = hash_of q /\ hash p = hash q.
+Proof. exact equal_hash_however_produced_cfg. Qed.
+Print Assumptions C08_equal_hash_however_produced_cfg.
+
+Theorem C08_equal_sound_produced_cfg : forall p q, produced_cfg p -> produced_cfg q -> equal p q = true ->
+  size p = size q /\ same_at p q /\ same_side p q.
+Proof. exact equal_sound_produced_cfg. Qed.
+Print Assumptions C08_equal_sound_produced_cfg.
+
+Theorem C08_example_however_produced_cfg :
+  let q0 := from_squares gen_basis 5%N ex_board5 13%Z in
+  let q1 := from_squares_cfg gen_basis 5%N 7%N 3%N true ex_board5 13%Z in
+  produced_cfg q0 /\ produced_cfg q1 /\ produced_cfg (image_cfg gen_basis 7%N 3%N q1 (SymCode1.csym 5 6)) /\ q0 <> q1 /\
+  equal q0 q1 = true /\ hash_of q0 = hash_of q1.
+Proof. exact ex_however_produced_cfg. Qed.
+Print Assumptions C08_example_however_produced_cfg.
+
